@@ -179,7 +179,13 @@ def type_fields(s, name):
         t = re.sub(r"^pub(\([^)]*\))?\s+", "", t)
         if t:
             out.append(re.sub(r"\s+", "", t) if m.group(1) == "struct" else t)
-    return {"kind": m.group(1), "members": out}
+    # derive attributes directly in front of the item, and every `impl … for Name` header in the file
+    # (a hand-written Clone / Drop / PartialEq of a state type is behaviour the model does not have)
+    pre = s[max(0, m.start() - 400):m.start()]
+    pre = pre[pre.rfind("}") + 1:] if "}" in pre else pre
+    derives = sorted(set(d.strip() for g in re.findall(r"#\[\s*derive\s*\(([^)]*)\)\s*\]", pre) for d in g.split(",") if d.strip()))
+    impls = sorted(set(norm(h) for h in re.findall(r"\bimpl\b(?:\s*<[^{;]*?>)?\s*([A-Za-z_][A-Za-z0-9_:]*(?:<[^{;]*?>)?)\s+for\s+%s\b" % re.escape(name), s)))
+    return {"kind": m.group(1), "members": out, "derives": derives, "impls": impls}
 
 
 def census(repo):
@@ -271,6 +277,9 @@ def compare(cur, ref):
         got = cur.get("state", {}).get(ent["rust"])
         if got is None:
             diffs.append("state type %s not found in the source (the model's %s stands for it)" % (ent["rust"], ent["lean"]))
+        elif "derives" in ent and (got.get("derives") != ent["derives"] or got.get("impls") != ent["impls"]):
+            diffs.append("state type %s: derives / trait impls changed: derives %s (reviewed: %s), impls %s (reviewed: %s) - the model treats Clone as the identity and has no Drop / comparison behaviour" % (
+                ent["rust"], got.get("derives"), ent["derives"], got.get("impls"), ent["impls"]))
         elif got["members"] != ent["members"]:
             extra = [m for m in got["members"] if m not in ent["members"]]
             gone = [m for m in ent["members"] if m not in got["members"]]
